@@ -50,7 +50,10 @@ META = dict(
          "spec/ExecutorGen.tla enumerates every sequential behaviour (Add/tick/Flush/Wait/idle jump) of Bulk- and "
          "ChunkExecutor up to 4-6 steps with predicted batches per step, replayed on the real executors (each between two "
          "unused decoy executors with other options; one plan runs a ChunkExecutor created without options against the "
-         "generator instantiated with the package's default byte limit).",
+         "generator instantiated with the package's default byte limit). The byte size of a ChunkExecutor task is a dimension of "
+         "its own, in the generated behaviours and in the recorded histories: 0 (a pending batch of size-0 tasks never moves a byte "
+         "counter, yet tick, Flush, Wait and the retiring flusher's final flush have to send it: stress profile `size 0 only`, "
+         "size-0 Adds placed on the retiring tick) and one below / exactly at / one above the byte limit.",
     note="Trusted: TLC, the tracer's global sequence number (container events are emitted under pe.lock; inv before / ret "
          "after each call), Go race detector, the in-package reads of pe.guarded used only as a harness barrier. "
          "Coverage of the real code is the set of recorded schedules (plus the three directed scenarios), not all "
@@ -247,6 +250,35 @@ def defaults(ctx, binp):
     return dict(bulk=int(m.group(1)), chunk=int(m.group(2)), interval_ms=int(m.group(3)))
 
 
+def gen_size_stats(ctx, printed, mx):
+    """Task size as a dimension of the generated chunk behaviours: how many predicted batches consist of size-0 tasks
+    only, per trigger (no byte counter ever moves for them: tick / Flush / Wait / final Wait must send them all the same),
+    and how many Adds carry a size one below / exactly at / one above the byte limit."""
+    with LOCK:
+        for line in printed:
+            try:
+                steps = json.loads(line) if isinstance(line, str) else line
+            except Exception:
+                continue
+            if not isinstance(steps, list):
+                continue
+            size = {}
+            for st in steps:
+                if st.get("op") == "add":
+                    size[st["t"]] = st["s"]
+                    edge = {mx - 1: "below", mx: "at", mx + 1: "above", 0: "zero"}.get(st["s"])
+                    if edge:
+                        ctx.counters["gen.add_size_" + edge] = ctx.counters.get("gen.add_size_" + edge, 0) + 1
+                for b in st.get("exec") or []:
+                    if b and all(size.get(t) == 0 for t in b):
+                        k = "gen.zero_batch_" + st["op"]
+                        ctx.counters[k] = ctx.counters.get(k, 0) + 1
+
+
+GEN_NEED = ["gen.zero_batch_tick", "gen.zero_batch_flush", "gen.zero_batch_wait", "gen.zero_batch_end",
+            "gen.add_size_zero", "gen.add_size_below", "gen.add_size_at", "gen.add_size_above"]
+
+
 def gen_replay(ctx, binp, name, kind, mx, sizes, maxlen, defaulted=0):
     """spec -> code: every sequential behaviour of ExecutorGen.tla up to maxlen steps (complete BFS enumeration) is
     executed on the real Bulk/ChunkExecutor and compared step by step."""
@@ -258,6 +290,8 @@ def gen_replay(ctx, binp, name, kind, mx, sizes, maxlen, defaulted=0):
         raise core.Infra("ExecutorGen produced no behaviours for %s" % name)
     if len(ctx.samples) < 3:
         ctx.samples += core.sample_of(r.printed, 1)
+    if kind == "chunk":
+        gen_size_stats(ctx, r.printed, mx)
     ctx.replay(PKG, OVERLAY, "^TestVerifC16Gen$", path, label="gen-" + name, env=dict(VERIF_KIND=kind, VERIF_MAX=mx, VERIF_DEFAULTED=defaulted),
                shards=8, binp=binp, race=True)
 
@@ -298,11 +332,13 @@ def real_code(ctx):
     dflt = defaults(ctx, binp)
     ctx.notes["package_defaults"] = dflt
     D = dflt["chunk"]
-    gplans = [("bulk2", "bulk", 2, "{1}", 5), ("chunk3", "chunk", 3, "{1,2,3}", 4),
-              ("chunkdef", "chunk", D, "{%d,%d,%d}" % (D // 2, D - 1, D), 3, 1)] if ctx.quick else \
+    # chunk: the task size is a dimension that includes 0 (a batch of size-0 tasks never moves the byte counter) and the
+    # sizes one below / exactly at / one above the byte limit
+    gplans = [("bulk2", "bulk", 2, "{1}", 5), ("chunk3", "chunk", 3, "{0,1,2,3,4}", 4),
+              ("chunkdef", "chunk", D, "{0,%d,%d,%d,%d}" % (D // 2, D - 1, D, D + 1), 3, 1)] if ctx.quick else \
              [("bulk1", "bulk", 1, "{1}", 5), ("bulk2", "bulk", 2, "{1}", 6), ("bulk3", "bulk", 3, "{1}", 6),
-              ("chunk3", "chunk", 3, "{1,2,3,5}", 5), ("chunk4", "chunk", 4, "{1,3,4,6}", 5),
-              ("chunkdef", "chunk", D, "{%d,%d,%d,%d}" % (D // 3, D // 2, D - 1, D), 4, 1)]
+              ("chunk3", "chunk", 3, "{0,1,2,3,4}", 5), ("chunk4", "chunk", 4, "{0,3,4,6}", 5),
+              ("chunkdef", "chunk", D, "{0,%d,%d,%d,%d}" % (D // 2, D - 1, D, D + 1), 4, 1)]
     ctx.exhaustive = True
     for g in gplans:
         gen_replay(ctx, binp, *g)
@@ -351,7 +387,8 @@ def real_code(ctx):
         need = ["rec.hist_bulk", "rec.hist_chunk", "rec.hist_per", "rec.takes_nonempty", "rec.waits", "rec.flusher_stops",
                 "rec.hist_inserter", "rec.hist_metrics", "rec.tick_flushes", "rec.threshold_batches", "rec.thr_checked",
                 "rec.exec_failures", "rec.retiring_hit", "rec.retiring_stop_hit", "rec.retiring_final_hit", "rec.rests", "rec.hist_multi", "rec.multi_defaulted",
-                "rec.default_full_batches", "rec.tickers_timed"]
+                "rec.default_full_batches", "rec.tickers_timed",
+                "rec.hist_chunk_zero", "rec.zero_adds", "rec.zero_batches", "rec.retiring_zero", "rec.edge_adds"] + GEN_NEED
         if not ctx.quick:
             need += ["rec.hist_handover", "rec.hist_quitrace", "rec.multi_concurrent"]
         missing = [k for k in need if ctx.counters.get(k, 0) == 0]
